@@ -18,7 +18,16 @@ package proxy
 //       decided can start;
 //   A5  result / status / body seen by the client are those of the last attempt made;
 //   A6  hanging backend + pool timeout => result "timeout", 408, for buffered and for
-//       streamed request bodies (harness watchdog 120 s => inconclusive).
+//       streamed request bodies (harness watchdog 120 s => inconclusive);
+//   A7  pool timeout combined with Retry: the time limit is that of ONE backend call.  An
+//       attempt that starts after earlier attempts (hanging into the limit) and back-off
+//       waits have used up more than `timeout` since the request began must still be handed
+//       a live context, and when its backend answers at once the client sees that answer
+//       (200 / the failure code), not "timeout".  Judged without any clock: the state of the
+//       context at the start of the attempt (the scripted transport, like http.Client.Do,
+//       fails at once on an expired context) and the final outcome; a context that is
+//       expired at the start although its deadline is a fresh per-attempt one (>= end of the
+//       previous attempt + timeout) is machine slowness and only counted.
 
 import (
 	"fmt"
@@ -61,7 +70,7 @@ type c10Case struct {
 	SyncCancel int        `json:"cancelDuringAttempt"`     // -1 none (index of the cancel/hangcancel step)
 }
 
-var c10Classes = []string{"all-fail", "success-at-k", "success-first", "hang-timeout", "cancel-in-attempt", "cancel-in-backoff", "stream", "cancel-hanging-attempt", "hang-then-recover", "cancel-elapsed-backoff", "random"}
+var c10Classes = []string{"all-fail", "success-at-k", "success-first", "hang-timeout", "cancel-in-attempt", "cancel-in-backoff", "stream", "cancel-hanging-attempt", "hang-then-recover", "cancel-elapsed-backoff", "random", "retry-past-time-limit"}
 
 var c10Waits = []string{"5ms", "8ms", "10ms", "15ms", "20ms", "30ms", "40ms"}
 
@@ -155,6 +164,64 @@ func c10GenCase(rng *rand.Rand, i int) *c10Case {
 		c.Script = append(fails(k), c10Step{Kind: "cancel"})
 		c.Script = append(c.Script, fails(max+2)...)
 		c.SyncCancel = k
+	case "retry-past-time-limit":
+		// Earlier attempts and/or back-off waits use up more than the pool's time limit;
+		// then an attempt answers at once (success, or a failure code on the last allowed
+		// attempt).  Shapes: an early attempt hangs into the limit; only instant failures
+		// whose back-off waits add up to more than the limit; both mixed.
+		if max < 2 {
+			rc.MaxAttempts = 2 + rng.Intn(3)
+			max = rc.effMax()
+		}
+		shape := []string{"hang", "backoff", "mixed"}[rng.Intn(3)]
+		finalFail := rng.Intn(3) == 0
+		n := 1 + rng.Intn(max-1) // attempts before the one that answers at once
+		if finalFail {
+			n = max - 1 // a failure code is final only on the last allowed attempt
+		}
+		limit := []int{10, 20, 30, 40}[rng.Intn(4)]
+		if shape == "backoff" {
+			// the guaranteed part of the n waits (lower bounds) must exceed the limit
+			limit = []int{10, 15, 20}[rng.Intn(3)]
+			picked := ""
+			if rc.RF < 1 {
+				for _, w := range []int{10, 15, 20, 30, 40, 60, 80} {
+					wc := &c10RetryCfg{Wait: fmt.Sprintf("%dms", w), BackOff: rc.BackOff, RF: rc.RF}
+					var sum time.Duration
+					for k := 0; k < n; k++ {
+						sum += wc.lowerBound(k)
+					}
+					if sum >= time.Duration(limit)*time.Millisecond*5/4 {
+						picked = wc.Wait
+						break
+					}
+				}
+			}
+			if picked == "" {
+				shape = "hang" // randomizationFactor 1: no wait is guaranteed
+			} else {
+				rc.Wait = picked
+			}
+		}
+		c.Pool.Timeout = fmt.Sprintf("%dms", limit)
+		for j := 0; j < n; j++ {
+			switch {
+			case shape == "backoff":
+				c.Script = append(c.Script, fail())
+			case shape == "hang" && j == 0, shape == "mixed" && j == n-1:
+				c.Script = append(c.Script, c10Step{Kind: "hang"})
+			case rng.Intn(2) == 0:
+				c.Script = append(c.Script, c10Step{Kind: "hang"})
+			default:
+				c.Script = append(c.Script, fail())
+			}
+		}
+		if finalFail {
+			c.Script = append(c.Script, c10Step{Kind: "failcode", Code: c.Pool.FailureCodes[rng.Intn(len(c.Pool.FailureCodes))]}, c10Step{Kind: "ok", Code: okCode()})
+		} else {
+			c.Script = append(c.Script, c10Step{Kind: "ok", Code: okCode()})
+			c.Script = append(c.Script, fails(2)...) // must never be executed
+		}
 	case "random":
 		n := 1 + rng.Intn(max+2)
 		for j := 0; j < n; j++ {
@@ -189,7 +256,7 @@ func c10Check(c *c10Case, res *c10Result) []string {
 	}
 	// A2
 	for i := 0; i+1 < m; i++ {
-		if res.Attempts[i].Kind == "ok" {
+		if res.Attempts[i].Kind == "ok" && !res.Attempts[i].ExpiredAtStart { // an expired context: nothing was sent, no success
 			bad = append(bad, "attempt-after-success")
 			break
 		}
@@ -217,11 +284,30 @@ func c10Check(c *c10Case, res *c10Result) []string {
 			bad = append(bad, "attempts-after-cancel-in-backoff")
 		}
 	}
+	// A7
+	stale, _ := c10ExpiredStarts(&c.Pool, res.Attempts)
+	lastStale := false
+	if len(stale) > 0 {
+		k := stale[0]
+		after := "nothing"
+		if k > 0 {
+			after = res.Attempts[k-1].Kind // what used up the time: a hanging attempt, or failures + back-off
+			if after != "hang" {
+				after = "backoff"
+			}
+		}
+		bad = append(bad, "attempt-started-with-expired-time-limit(limit-not-per-attempt):after="+after)
+		lastStale = stale[len(stale)-1] == m-1
+	}
 	// A5 / A6
 	last := res.Attempts[m-1]
 	okFinal := c10FinalOK(&c.Pool, last, res)
 	if !okFinal {
-		bad = append(bad, fmt.Sprintf("final-outcome-not-last-attempts:last=%s:got=%s/%d", last.Kind, res.Result, res.Status))
+		sig := fmt.Sprintf("final-outcome-not-last-attempts:last=%s:got=%s/%d", last.Kind, res.Result, res.Status)
+		if lastStale {
+			sig += ":last-attempt-started-with-expired-time-limit"
+		}
+		bad = append(bad, sig)
 	}
 	return bad
 }
@@ -229,7 +315,7 @@ func c10Check(c *c10Case, res *c10Result) []string {
 func TestVerif_C10_Retry(t *testing.T) {
 	r := kit.Start(t, "C10")
 	defer r.Finish()
-	r.Rule("systematic product of 11 script classes (all attempts fail; success at attempt k incl. k beyond maxAttempts; success first; hanging backend + pool timeout with a buffered or a streamed request body; hang/fail then recover; client cancel inside attempt k; cancel of a hanging attempt; cancel from another goroutine during the back-off; stream body; cancel with a back-off of 1ns..1us; random) x maxAttempts {omitted,1..5} x backOffPolicy {omitted,random,exponential} x randomizationFactor {0,0.1,0.25,0.5,1}, seeded waitDuration 5..40 ms, failure codes and failure kinds (failure code / network error); every sequence runs through the real Proxy.Handle -> ServerPool.handle -> RetryPolicy.Wrap with a scripted, time-stamping transport; distinct = (class, maxAttempts, back-off, rf, attempts made, kind of last attempt)")
+	r.Rule("systematic product of 12 script classes (all attempts fail; success at attempt k incl. k beyond maxAttempts; success first; hanging backend + pool timeout with a buffered or a streamed request body; hang/fail then recover; client cancel inside attempt k; cancel of a hanging attempt; cancel from another goroutine during the back-off; stream body; cancel with a back-off of 1ns..1us; random; retry past the pool time limit: time limit 10..40 ms, earlier attempts hang into the limit and/or instant failures whose guaranteed back-off waits add up to more than the limit, then an attempt that answers at once with success or - on the last allowed attempt - a failure code) x maxAttempts {omitted,1..5} x backOffPolicy {omitted,random,exponential} x randomizationFactor {0,0.1,0.25,0.5,1}, seeded waitDuration 5..40 ms, failure codes and failure kinds (failure code / network error); every sequence runs through the real Proxy.Handle -> ServerPool.handle -> RetryPolicy.Wrap with a scripted, time-stamping transport that, like http.Client.Do, fails at once when the context it is given has expired, and records that state and the context deadline per attempt; distinct = (class, maxAttempts, back-off, rf, attempts made, kind of last attempt)")
 	r.Assume("success = 2xx response; failure = status listed in failureCodes, transport error, or context error; only lower bounds on real time are judged; policies are created with resilience.NewPolicy (documented defaults apply)")
 
 	old := fnSendRequest
@@ -354,10 +440,41 @@ func TestVerif_C10_Retry(t *testing.T) {
 			if c.Class == "success-at-k" && last == "ok" && m > 1 {
 				r.Count("stopped_at_first_success_after_retries", 1)
 			}
+			if _, slow := c10ExpiredStarts(&c.Pool, res.Attempts); slow > 0 {
+				r.Count("fresh_time_limit_expired_before_transport(machine_slow)", int64(slow))
+			}
+			if c.Pool.Timeout != "" && m > 1 {
+				// A7 was put to the test: attempts that started (lower bound, stub clock) more
+				// than the time limit after the FIRST attempt had started, with a live context
+				limit, _ := time.ParseDuration(c.Pool.Timeout)
+				lateLive := 0
+				for k := 1; k < m; k++ {
+					if a := res.Attempts[k]; a.Start-res.Attempts[0].Start > limit && !a.ExpiredAtStart {
+						lateLive++
+					}
+				}
+				r.Count("late_attempts_started_with_live_time_limit", int64(lateLive))
+				la := res.Attempts[m-1]
+				if c.Class == "retry-past-time-limit" && !la.ExpiredAtStart && la.Start-res.Attempts[0].Start > limit {
+					usedBy := "backoff_waits"
+					for _, a := range res.Attempts[:m-1] {
+						if a.Kind == "hang" {
+							usedBy = "hanging_attempt"
+						}
+					}
+					switch {
+					case la.Kind == "ok" && res.Result == "":
+						r.Count("late_attempt_after_"+usedBy+"_answered_success", 1)
+					case la.Kind == "failcode" && res.Result == resultFailureCode:
+						r.Count("late_attempt_answered_failure_code", 1)
+					}
+				}
+			}
 		}
 		p.Close()
 	}
-	for _, k := range []string{"reached_maxAttempts", "backoff_gaps_checked", "cancel_stopped_retries", "cancel_in_backoff_stopped_retries", "timeout_408_seen", "timeout_408_seen_stream_body", "timeout_408_seen_buffered_body", "stream_single_attempt_on_failure", "stopped_at_first_success_after_retries"} {
+	for _, k := range []string{"reached_maxAttempts", "backoff_gaps_checked", "cancel_stopped_retries", "cancel_in_backoff_stopped_retries", "timeout_408_seen", "timeout_408_seen_stream_body", "timeout_408_seen_buffered_body", "stream_single_attempt_on_failure", "stopped_at_first_success_after_retries",
+		"late_attempts_started_with_live_time_limit", "late_attempt_after_hanging_attempt_answered_success", "late_attempt_after_backoff_waits_answered_success", "late_attempt_answered_failure_code"} {
 		r.Require(k, 1)
 	}
 }
